@@ -22,6 +22,10 @@ Facet 5 (Siblings).  ONE conditional object (callable mean / matrix / precision 
   configurations of a Reassign pair, both copies stay alive; TLC enumerates the interleavings of Condition(A), Condition(B),
   Sample(.), use of the original (SibOwnDraw; deviation shared_derived refuted); every draw is judged against the case of the
   sampled copy's OWN configuration (signatures siblings/<observer signature>/order=ABA/walk=.../at=<k><copy>/cond=<callables>).
+Facet 6 (FirstObservable).  After `obj.<parameter> = value` the first observable used may be sample, logpdf or gradient, in any
+  order: TLC enumerates the orders (FoUsesCurrent; deviation sync_in_density_only refuted), the replay drives them on the objects of
+  the Reassign cases; every sample is judged by the facet-1 / facet-2 observer against the case of the assignments made so far and
+  nothing is evaluated that the behaviour does not contain (signatures <observer signature>/firstobs=<walk>/at=<k>/assigned=<names>).
 Facet 3 (streams).  TLC explores the stream state machine and emits behaviours; each is executed on real
   distributions with real RandomState / Generator objects: global state digests before/after, equal generator
   states => equal draws, return types, conditional distributions refuse.
@@ -50,7 +54,12 @@ META = {
              "replayed or observed). Facet 5 (Siblings: Condition(A), Condition(B), Sample, Original on ONE conditional object, "
              "invariant SibOwnDraw, deviation shared_derived refuted): conditional Gaussian / Lognormal / GMRF / univariate families "
              "conditioned to both configurations of every Reassign pair, both copies alive, sampled A, B, A (and every other emitted "
-             "interleaving, rotating) around a use of the unconditioned original; each draw must be that of its own configuration."),
+             "interleaving, rotating) around a use of the unconditioned original; each draw must be that of its own configuration. "
+             "Facet 6 (FirstObservable: Assign / Observe(sample | logpdf | gradient) on ONE object, invariant FoUsesCurrent, deviation "
+             "sync_in_density_only refuted): after a public setter ANY observable may be used first - every emitted order of assignments "
+             "and observables is driven on the objects of the Reassign cases (univariate families, Gaussian, Lognormal, GMRF) and every "
+             "sample is read off affinely / by the wiring table against the case of the assignments made so far WITHOUT evaluating a "
+             "density unless the behaviour contains it."),
     "note": ("No statistics: the law of numpy/scipy base generators is trusted; ModifiedHalfNormal acceptance envelopes "
              "are not modelled (parameter wiring and stream behaviour only). Bounded sizes (Gaussian dim <= 3 with "
              "MIN_DIM_SPARSE lowered to 2, plus diagonal forms at the real threshold 75/76; structure x format lattice in dim 4 (and 3) "
